@@ -170,23 +170,27 @@ impl_subject!(IndexList<Vec<u32>, Vec<u64>>, "IndexList<Vec<u32>,Vec<u64>>");
 impl_subject!(IndexOptimized, "IndexOptimized");
 impl_subject!(Vec<usize>, "Vec<usize>");
 
-pub const ABS: [usize; 8] = [0, 1, 2, 3, u32::MAX as usize, u32::MAX as usize + 1, 1usize << 63, usize::MAX];
-const N_ABS: u32 = 8;
-const R_NEXT: u32 = 8;
-const R_LAST: u32 = 9;
-const R_LAST_P1: u32 = 10;
-const R_LAST_M1: u32 = 11;
-const R_DOUBLE: u32 = 12;
-const N_PUSH: u32 = 13;
-const OP_CLEAR: u32 = 13;
-const OP_RESERVE: u32 = 14;
-const OP_EXT0: u32 = 15; // extend([])
-const OP_EXT1: u32 = 16; // extend([next, next'])
-const OP_EXT2: u32 = 17; // extend([last, last])
-const OP_EXT3: u32 = 18; // extend([u32::MAX+1, 0])
-const OP_SERDE: u32 = 19;
+/// usize::MAX / 3 and usize::MAX / 2: strides whose multiples land exactly on / next to usize::MAX
+pub const ABS: [usize; 10] =
+    [0, 1, 2, 3, u32::MAX as usize, u32::MAX as usize + 1, 1usize << 63, usize::MAX, usize::MAX / 3, usize::MAX / 2];
+const N_ABS: u32 = 10;
+const R_NEXT: u32 = 10;
+const R_LAST: u32 = 11;
+const R_LAST_P1: u32 = 12;
+const R_LAST_M1: u32 = 13;
+const R_DOUBLE: u32 = 14;
+/// the next multiple of the stride *prefix* (differs from R_NEXT once the stride has been broken)
+const R_NEXT_PREFIX: u32 = 15;
+const N_PUSH: u32 = 16;
+const OP_CLEAR: u32 = 16;
+const OP_RESERVE: u32 = 17;
+const OP_EXT0: u32 = 18; // extend([])
+const OP_EXT1: u32 = 19; // extend([next, next'])
+const OP_EXT2: u32 = 20; // extend([last, last])
+const OP_EXT3: u32 = 21; // extend([u32::MAX+1, 0])
+const OP_SERDE: u32 = 22;
 /// push(2^30): used by script 2 only, not part of the BFS alphabet
-const R_2P30: u32 = 20;
+const R_2P30: u32 = 23;
 
 #[derive(Clone, Copy, PartialEq, Eq, Debug)]
 pub enum IdxOracle {
@@ -202,6 +206,10 @@ pub struct IdxMachine<C: IdxSubject> {
     c: C,
     seq: Vec<usize>,
     ever_spilled: bool,
+    /// reserve() was called in this history (capacities are then the caller's business)
+    reserved: bool,
+    /// most bytes ever used per storage since creation
+    high_water: Vec<usize>,
     oracle: IdxOracle,
     script: u8,
     tags: Vec<String>,
@@ -209,7 +217,7 @@ pub struct IdxMachine<C: IdxSubject> {
 
 impl<C: IdxSubject> IdxMachine<C> {
     pub fn new(oracle: IdxOracle, script: u8) -> Self {
-        IdxMachine { c: C::default(), seq: vec![], ever_spilled: false, oracle, script, tags: vec![] }
+        IdxMachine { c: C::default(), seq: vec![], ever_spilled: false, reserved: false, high_water: vec![], oracle, script, tags: vec![] }
     }
 
     fn next_stride(&self, seq: &[usize]) -> usize {
@@ -237,6 +245,24 @@ impl<C: IdxSubject> IdxMachine<C> {
             R_LAST_P1 => last.wrapping_add(1),
             R_LAST_M1 => last.wrapping_sub(1),
             R_DOUBLE => last.wrapping_mul(2),
+            R_NEXT_PREFIX => {
+                if self.seq.len() < 2 {
+                    return self.next_stride(&self.seq);
+                }
+                let p = stride_prefix_len(&self.seq);
+                // number of stride steps in the prefix (repeats of the last element do not count)
+                let s = self.seq[1] as u128;
+                let mut steps = p;
+                while steps >= 2 && self.seq[steps - 1] == self.seq[steps - 2] && s != 0 {
+                    steps -= 1;
+                }
+                let x = s * steps as u128;
+                if x > usize::MAX as u128 {
+                    usize::MAX
+                } else {
+                    x as usize
+                }
+            }
             R_2P30 => 1usize << 30,
             _ => unreachable!(),
         }
@@ -324,6 +350,26 @@ impl<C: IdxSubject> IdxMachine<C> {
         if C::NAME == "IndexOptimized" && !self.ever_spilled && cap != 0 {
             return Err(format!("never spilled, but reports capacity {cap} bytes (pairs {:?})", heap));
         }
+        // "4 / 8 bytes per entry": without an explicit reserve the allocation stays within amortised
+        // doubling of what is used (at least room for four entries)
+        if C::NAME == "IndexOptimized" && !self.reserved {
+            for (k, (u, c)) in heap.iter().enumerate() {
+                let entry = if k == 0 { 4 } else { 8 };
+                // allocations are retained across clear(): compare with the high-water mark
+                if self.high_water.len() <= k {
+                    self.high_water.resize(k + 1, 0);
+                }
+                self.high_water[k] = self.high_water[k].max(*u);
+                let u = &self.high_water[k];
+                if *c > (2 * *u).max(4 * entry) {
+                    return Err(format!(
+                        "index container allocates {c} bytes for {u} bytes of spilled entries although nothing was reserved (pairs {:?}, sequence {:?})",
+                        heap,
+                        short(&self.seq)
+                    ));
+                }
+            }
+        }
         let chonk = heap.get(1).map(|h| h.0).unwrap_or(0) > 0;
         let smol = heap.first().map(|h| h.0).unwrap_or(0) > 0;
         self.tags.push(format!(
@@ -372,6 +418,8 @@ impl<C: IdxSubject> Machine for IdxMachine<C> {
         self.c = C::default();
         self.seq.clear();
         self.ever_spilled = false;
+        self.reserved = false;
+        self.high_water.clear();
         self.tags.clear();
     }
     fn enabled(&self) -> Vec<OpId> {
@@ -449,6 +497,7 @@ impl<C: IdxSubject> Machine for IdxMachine<C> {
                 if let Err(p) = guard(|| c.s_reserve(2)) {
                     return Step::Violation(format!("reserve(2) panicked: {p}"));
                 }
+                self.reserved = true;
                 if C::NAME != "IndexOptimized" {
                     self.ever_spilled = true;
                 }
@@ -493,7 +542,7 @@ impl<C: IdxSubject> Machine for IdxMachine<C> {
         Step::Ok
     }
     fn fingerprint(&self) -> Option<String> {
-        Some(format!("{:?}|{:?}|{}", self.c, self.seq, self.ever_spilled))
+        Some(format!("{:?}|{:?}|{}|{}|{:?}", self.c, self.seq, self.ever_spilled, self.reserved, self.high_water))
     }
     fn drain_tags(&mut self) -> Vec<String> {
         std::mem::take(&mut self.tags)
